@@ -129,8 +129,29 @@ package main
 //@ func funcval:github.com/uber-go/gopatch.mainCmd.Getwd() (dir, err)
 //@   assigns nothing
 
+// Comments are only ever removed, and only those lying entirely inside a changed interval; the lines they
+// occupied are merged (C17). No comment is added, moved or duplicated here.
 //@ func cleanupFilePos(tfile, cl, comments)
+//@   requires tfile != nil
+//@   requires typing: forall g int {comments[g]} :: 0 <= g && g < len(comments) ==> comments[g] != nil && forall c int {comments[g].List[c]} :: 0 <= c && c < len(comments[g].List) ==> comments[g].List[c] != nil
 //@   assigns group(ast)
+//@   loop 0
+//@     invariant linesToDelete != nil
+//@   loop 1
+//@     invariant linesToDelete != nil
+//@     decreases fileLine(tfile, dr.End) - i
+//@   loop 2
+//@     invariant linesToDelete != nil
+//@   loop 3
+//@     unfold keptLen(cg.List, dr.Start, dr.End, 0) == 0
+//@     unfold keptLen(cg.List, dr.Start, dr.End, #k + 1) == keptLen(cg.List, dr.Start, dr.End, #k) + ite(cPos(cg.List[#k]) >= dr.Start && cEnd(cg.List[#k]) <= dr.End, 0, 1)
+//@     invariant [C17] only-comments-inside-a-changed-interval-are-dropped: len(list) == keptLen(cg.List, dr.Start, dr.End, #k)
+//@     invariant [C17] comments-only-shrink: len(list) <= #k
+//@     invariant list.arr == 0 || fresh(list.arr)
+//@   loop 4
+//@     invariant fresh(lines.arr)
+//@   loop 5
+//@     decreases i + 1
 
 // The sort.Slice comparison of findFiles.
 //@ func findFiles$1(i, j) (r)
